@@ -237,6 +237,11 @@ def check(P, R):
                  'symbolic spellings - and lets `sub//../../x` out of the root', why='the file opened lies inside the root directory', key_extra='no-guard')
         return
     name_var = None
+
+    def same_value(n1, nm1, n2, nm2):
+        # the two names hold the same object: equal sets of definitions once plain copies (`filename = location_path`) are followed back
+        a_, b_ = rd.root_defs(n1, nm1), rd.root_defs(n2, nm2)
+        return bool(a_) and {id(x_) for x_ in a_} == {id(x_) for x_ in b_}
     from ..paths import Explorer
     X = Explorer(f, P)
     sink_nodes = [g.node_of_stmt(c)[0] for c in sinks]
@@ -256,7 +261,7 @@ def check(P, R):
             gname = t.name.id
             name_var = gname
             # d: same definition opened
-            okn = isinstance(arg, ast.Name) and arg.id == gname and rd.same_defs(n, cn, gname)
+            okn = isinstance(arg, ast.Name) and ((arg.id == gname and rd.same_defs(n, cn, gname)) or same_value(n, gname, cn, arg.id))
             R.ob('C16.d', f, c, okn, detail='' if okn else
                  f'the path opened (`{short(arg)}`) is not the definition of `{gname}` that the prefix test checked '
                  f'(rebound or different expression after the check)',
@@ -302,13 +307,16 @@ def check(P, R):
             for n in g.nodes:
                 if n.kind != 'test':
                     continue
-                calls = [x for x in walk_shallow(n.ast) if isinstance(x, ast.Call) and call_attr(x) in attrs]
+                te = n.ast
+                if isinstance(strip_not(n.ast)[0], ast.Name):            # a flag stands for its expression
+                    te = T.expand(f, n.ast, n, keep=tuple(rd.locals - {strip_not(n.ast)[0].id}))
+                calls = [x for x in ast.walk(te) if isinstance(x, ast.Call) and call_attr(x) in attrs]
                 if not calls:
                     continue
                 # failing edge: determine by polarity of the whole test: `not A or not B` -> true edge denies
                 deny = None
-                t, neg = strip_not(n.ast)
-                if isinstance(n.ast, ast.BoolOp) and isinstance(n.ast.op, ast.Or) and all(strip_not(v)[1] for v in n.ast.values):
+                t, neg = strip_not(te)
+                if isinstance(te, ast.BoolOp) and isinstance(te.op, ast.Or) and all(strip_not(v)[1] for v in te.values):
                     deny = 'true'
                 elif neg:
                     deny = 'true'
@@ -319,8 +327,9 @@ def check(P, R):
                     okd, st = deny_return(g, n, deny, statuses)
                     if not okd:
                         okd, st = deny_return_ps(X, n, deny, statuses, sink_nodes)
-                    argok = all(x.args and isinstance(x.args[0], ast.Name) and x.args[0].id == name_var
-                                and rd.same_defs(n, cn, name_var) for x in calls)
+                    argok = all(x.args and isinstance(x.args[0], ast.Name) and ((x.args[0].id == name_var and rd.same_defs(n, cn, name_var)) or
+                                                                                 (isinstance(sinks[0].args[0], ast.Name) and
+                                                                                  same_value(n, x.args[0].id, cn, sinks[0].args[0].id))) for x in calls)
                     found = True
                     R.ob('C16.e', f, n.ast, okd and argok, text=f'{role}: {short(n.ast)} -> {st}',
                          detail='' if (okd and argok) else ('failing edge does not return 403/404' if not okd else
@@ -332,5 +341,5 @@ def check(P, R):
     for c in [x for x in walk_shallow(f.node) if isinstance(x, ast.Call) and dotted(x.func) in ('os.stat', 'os.lstat')]:
         cn = g.node_of_stmt(c)[0]
         a = c.args[0] if c.args else None
-        ok = isinstance(a, ast.Name) and a.id == name_var and any(rd.same_defs(n, cn, name_var) for (n, _, _) in guards)
+        ok = isinstance(a, ast.Name) and any((a.id == name_var and rd.same_defs(n, cn, name_var)) or (name_var and same_value(n, name_var, cn, a.id)) for (n, _, _) in guards)
         R.ob('C16.d', f, c, ok, detail='' if ok else 'os.stat() is taken of a different path than the one checked', key_extra='stat')
